@@ -576,6 +576,11 @@ class Interp:
         if isinstance(cls, ExtRef):
             c = canon_ext(cls.name)
             if c in ("jax.Array", "np.ndarray", "jax.typing.ArrayLike", "np.generic"):
+                kind = getattr(v, "array_kind", None)  # a rule may pin a value to one array library
+                if kind == "jax" and c in ("np.ndarray", "np.generic"):
+                    return False
+                if kind == "numpy" and c == "jax.Array":
+                    return False
                 return (isinstance(v, Rat) and getattr(self, "rat_is_array", True)) or (isinstance(v, AbsVal) and getattr(v, "is_array", False))
             if c in ("typing.Sequence", "collections.abc.Sequence", "Sequence"):
                 return isinstance(v, (list, tuple))
